@@ -107,7 +107,7 @@ Step(ln) ==
       [] OTHER -> FALSE
 
 \* "err" in the specification = any status that is an error (the documentation does not name the code)
-Matches(rec, ln) == /\ (rec.st = ln.st \/ (rec.st = "err" /\ ln.st \notin {"ok", ""}))
+Matches(rec, ln) == /\ (rec.st = ln.st \/ (rec.st = "err" /\ ln.st \notin {"ok", ""}) \/ (rec.st = "okerr" /\ ln.st # ""))
                     /\ ln.r >= rec.lo /\ ln.r <= rec.hi
                     /\ rec.rs = ln.rs /\ (rec.o = Undocumented \/ rec.o = ln.o) /\ rec.q = ln.q
 
